@@ -83,6 +83,14 @@ func (t *Enum) Extend(x Type) error {
 	return t.Base.Extend(x)
 }
 
+func (t *Enum) unextend() func() {
+	base, nv := t.Base.unextend(), len(t.values.list)
+	return func() {
+		base()
+		t.values.truncate(nv)
+	}
+}
+
 // Validate a type.
 func (t *Enum) Validate(root *Root) (errs []error) {
 	errs = append(errs, root.validateTypeName("enum", t)...)
